@@ -122,6 +122,43 @@ theorem ctor_accepts {α σ} (dims : List Nat) (data : List α) (value : α) (rd
       | succ n ih => intro s; simp [readVec, ih]
     exact hl _ _
 
+/-- The constructors as the checked build executes them (`dims.iter().product()` through checked
+    `usize` multiplications): (i) they are the plain constructors whenever the product fits `usize`;
+    (ii) a zero extent is still an assertion failure; (iii) a product that does not fit is a
+    `panic:overflow` — so **every** bad shape is rejected (`ctorU_rejects_all`). -/
+theorem ctorU_spec {α σ} (dims : List Nat) (data : List α) (value : α) (rd : σ → α × σ) (s : σ) :
+    ((∀ d ∈ dims, 0 < d) → prod dims < 2 ^ 64 →
+        fromVecU dims data = fromVec dims data ∧ fromSliceU dims data = fromSlice dims data ∧
+        newU dims value = new dims value ∧ readU dims rd s = Tensor.read dims rd s) ∧
+    (0 ∈ dims →
+        fromVecU dims data = .error .assert ∧ fromSliceU dims data = .error .assert ∧
+        newU dims value = .error .assert ∧ readU dims rd s = .error .assert) ∧
+    (¬ 0 ∈ dims → 2 ^ 64 ≤ prod dims →
+        fromVecU dims data = .error .overflow ∧ fromSliceU dims data = .error .overflow ∧
+        newU dims value = .error .overflow ∧ readU dims rd s = .error .overflow) := by
+  refine ⟨fun hpos hb => ?_, fun h0 => ?_, fun h0 hb => ?_⟩
+  · have h0 : ¬ 0 ∈ dims := (no_zero_iff dims).2 hpos
+    unfold fromVecU fromSliceU newU readU fromVec fromSlice new Tensor.read
+    simp [prodU_ok dims hpos hb, h0]
+  · unfold fromVecU fromSliceU newU readU
+    simp [h0]
+  · unfold fromVecU fromSliceU newU readU
+    simp [prodU_overflow dims hb, h0]
+
+theorem ctorU_rejects_all {α} (dims : List Nat) (data : List α) (h : 0 ∈ dims ∨ prod dims ≠ data.length) :
+    ∃ e, fromVecU dims data = .error e ∧ fromSliceU dims data = .error e := by
+  by_cases h0 : 0 ∈ dims
+  · exact ⟨.assert, by unfold fromVecU fromSliceU; simp [h0]⟩
+  · have hne : prod dims ≠ data.length := by rcases h with h | h; exact absurd h h0; exact h
+    unfold fromVecU fromSliceU
+    simp only [contains_zero_iff, h0, if_false]
+    cases hp : prodU dims with
+    | error e => exact ⟨e, rfl, rfl⟩
+    | ok p =>
+      have : p = prod dims := by have := prodUFrom_sound dims 1 p hp; omega
+      subst this
+      exact ⟨.assert, by simp [hne]⟩
+
 /-- `iter()` is the storage in order, and the element at storage position `k` is the one
     addressed by the `k`-th multi-index in row-major order: iteration order = increasing `flat`. -/
 theorem iter_rowmajor {α} (t : Tensor α) (hwf : WF t) :
@@ -147,6 +184,14 @@ theorem index_mut_then_index {α} (t : Tensor α) (hwf : WF t) (idx : List Nat) 
 theorem write_spec {α} (t : Tensor α) (hwf : WF t) :
     writePieces t = .ok (specPieces t.dims t.data) ∧ elems (specPieces t.dims t.data) = t.data :=
   ⟨writePieces_spec t hwf, elems_specPiecesFrom t.dims t.data 0⟩
+
+/-- `Debug`: the same walk with bracket separators — `[`×D, the elements in storage order, between
+    the `k`-th and `k+1`-th `]`×j `", "` `[`×j with `j = sepCount dims (k+1)`, then `]`×D. -/
+theorem debug_spec {α} (render : α → List Char) (t : Tensor α) (hwf : WF t) :
+    debugText render t = .ok (List.replicate t.dims.length '[' ++
+      ((specPieces t.dims t.data).map (renderPieceDbg render)).flatten ++ List.replicate t.dims.length ']') := by
+  unfold debugText
+  rw [writePieces_spec t hwf]
 
 /-- The separator count is what the docs of the layout say: inside the last dimension a blank;
     at the end of a row one newline; at the end of a row that also ends a plane two; … -/
@@ -209,6 +254,11 @@ example : fromVec [2, 0] ([] : List Int) = .error .assert :=
   ((ctor_rejects [2, 0] ([] : List Int) 0 (fun (s : Unit) => ((0 : Int), s)) ()).1 (Or.inl (by decide))).1
 example : fromVec [2, 3] [1, 2, 3, 4, (5 : Int)] = .error .assert :=
   ((ctor_rejects [2, 3] [1, 2, 3, 4, (5 : Int)] 0 (fun (s : Unit) => ((0 : Int), s)) ()).1 (Or.inr (by decide))).1
+/-- a shape whose product wraps to 0 in `usize`: rejected by the checked build (an unchecked build
+    accepts `from_vec([2^32, 2^32], vec![])` — see docs/notes/C19.md) -/
+example : fromVecU [4294967296, 4294967296] ([] : List Int) = .error .overflow :=
+  ((ctorU_spec [4294967296, 4294967296] ([] : List Int) 0 (fun (s : Unit) => ((0 : Int), s)) ()).2.2
+    (by decide) (by decide)).1
 /-- a well-formed `2×2×3` tensor: rows separated by one newline, planes by two -/
 example : WF (⟨[2, 2, 3], List.range 12⟩ : Tensor Nat) := ⟨by decide, by decide⟩
 example : specPieces [2, 3] [1, 2, 3, 4, 5, (6 : Nat)] =
